@@ -25,6 +25,7 @@ import VotelibProofs.Lemmas.RenameScoreMJ
 import VotelibProofs.Lemmas.PermSTV8
 import VotelibProofs.Lemmas.PermTrans
 import VotelibProofs.Lemmas.PermSymmetric2
+import VotelibProofs.Lemmas.PermCondorcetRulesAt
 import VotelibProofs.Lemmas.PermQuotaSubtract
 import VotelibProofs.Lemmas.PermRankedPairsWitness
 import VotelibProofs.Lemmas.PermBaldwin
@@ -506,6 +507,132 @@ theorem majority_judgment_rename_mono_partial (σ : Cand → Cand) (hmono : Stri
     (p : Score.SProfile) (n : Nat) :
     Score.majorityJudgment tb cfg (Perm.renScore σ p) n = (Score.majorityJudgment tb cfg p n).map (List.map (renSlot σ)) :=
   Perm.majorityJudgment_rename_mono hmono tb cfg p n
+
+/-! ## the Condorcet family on ranked profiles, BOTH modes of the converter
+  `PreConv.condorcetRuleAt ab ev p n = ev (rankedToCondorcet ab p) n`, `PreConv.condorcetSeatlessAt ab ev p`: the family table's
+  `PreConverted(RankedToCondorcetVotes(unranked_at_bottom = ab), evaluator)`.  `ab = false` gives incomplete pairwise dictionaries
+  (the `_sparse` families).  The theorems above about `condorcetRule` / `condorcetSeatless` are the instances `ab = true`. -/
+
+open VL.Convert VL.PreConv VL.Perm in
+theorem copeland_rule_perm_at (ab : Bool) (so : Bool) {p₁ p₂ : RProfile} (h : p₁.Perm p₂) (n : Nat) :
+    SlotsEquiv (condorcetRuleAt ab (Condorcet.copeland so) p₁ n) (condorcetRuleAt ab (Condorcet.copeland so) p₂ n) :=
+  Perm.copelandRule_permAt ab so h n
+
+open VL.Convert VL.PreConv VL.Perm in
+theorem minimax_rule_perm_at (ab : Bool) (sc : Condorcet.Scorer) {p₁ p₂ : RProfile} (h : p₁.Perm p₂) (n : Nat) :
+    SlotsEquiv (condorcetRuleAt ab (Condorcet.minimax sc) p₁ n) (condorcetRuleAt ab (Condorcet.minimax sc) p₂ n) :=
+  Perm.minimaxRule_permAt ab sc h n
+
+open VL.Convert VL.PreConv VL.Perm in
+theorem schulze_rule_perm_at (ab : Bool) {p₁ p₂ : RProfile} (h : p₁.Perm p₂) (hb : ∀ bw ∈ p₁, (ballotCands bw.1).Nodup)
+    (hw : ∀ bw ∈ p₁, 0 ≤ bw.2) (n : Nat) :
+    SlotsEquiv (condorcetRuleAt ab Condorcet.schulze p₁ n) (condorcetRuleAt ab Condorcet.schulze p₂ n) :=
+  Perm.schulzeRule_permAt ab h hb hw n
+
+open VL.Convert VL.PreConv VL.Perm in
+theorem condorcet_winner_rule_perm_at (ab : Bool) {p₁ p₂ : RProfile} (h : p₁.Perm p₂) :
+    condorcetSeatlessAt ab Condorcet.condorcetWinner p₁ = condorcetSeatlessAt ab Condorcet.condorcetWinner p₂ :=
+  Perm.condorcetWinnerRule_permAt ab h
+
+open VL.Convert VL.PreConv VL.Perm in
+theorem smith_rule_perm_at (ab : Bool) {p₁ p₂ : RProfile} (h : p₁.Perm p₂) :
+    (condorcetSeatlessAt ab Condorcet.smithSet p₁).Perm (condorcetSeatlessAt ab Condorcet.smithSet p₂) :=
+  Perm.smithRule_permAt ab h
+
+open VL.Convert VL.PreConv VL.Perm in
+theorem schwartz_rule_perm_at (ab : Bool) {p₁ p₂ : RProfile} (h : p₁.Perm p₂) :
+    (condorcetSeatlessAt ab Condorcet.schwartzSet p₁).Perm (condorcetSeatlessAt ab Condorcet.schwartzSet p₂) :=
+  Perm.schwartzRule_permAt ab h
+
+open VL.Convert VL.PreConv VL.Perm in
+theorem kemeny_young_rule_perm_at (ab : Bool) {p₁ p₂ : RProfile} (h : p₁.Perm p₂) (n : Nat) :
+    condorcetRuleAt ab Condorcet.kemenyYoung p₁ n = condorcetRuleAt ab Condorcet.kemenyYoung p₂ n :=
+  Perm.kemenyRule_permAt ab h n
+
+open VL.Convert VL.PreConv VL.Perm in
+theorem ranked_pairs_rule_perm_at (ab : Bool) (sc : Condorcet.Scorer) {p₁ p₂ : RProfile} (h : p₁.Perm p₂)
+    (hd : RPDistinct sc (rankedToCondorcet ab p₁)) (n : Nat) :
+    condorcetRuleAt ab (Condorcet.rankedPairs sc) p₁ n = condorcetRuleAt ab (Condorcet.rankedPairs sc) p₂ n :=
+  Perm.rankedPairsRule_permAt ab sc h hd n
+
+open VL.Convert VL.PreConv VL.Perm in
+theorem minimax_rule_rename_at (σ : Cand → Cand) (hσ : Function.Injective σ) (ab : Bool) (sc : Condorcet.Scorer) (p : RProfile) (hb : ∀ bw ∈ p, (ballotCands bw.1).Nodup) (n : Nat) :
+    SlotsEquiv (condorcetRuleAt ab (Condorcet.minimax sc) (renRProfile σ p) n)
+      ((condorcetRuleAt ab (Condorcet.minimax sc) p n).map (renSlot σ)) :=
+  Perm.minimaxRule_renAt σ hσ ab sc p hb n
+
+open VL.Convert VL.PreConv VL.Perm in
+theorem schulze_rule_rename_at (σ : Cand → Cand) (hσ : Function.Injective σ) (ab : Bool) (p : RProfile) (hb : ∀ bw ∈ p, (ballotCands bw.1).Nodup) (hw : ∀ bw ∈ p, 0 ≤ bw.2) (n : Nat) :
+    SlotsEquiv (condorcetRuleAt ab Condorcet.schulze (renRProfile σ p) n)
+      ((condorcetRuleAt ab Condorcet.schulze p n).map (renSlot σ)) :=
+  Perm.schulzeRule_renAt σ hσ ab p hb hw n
+
+open VL.Convert VL.PreConv VL.Perm in
+theorem condorcet_winner_rule_rename_at (σ : Cand → Cand) (hσ : Function.Injective σ) (ab : Bool) (p : RProfile) (hb : ∀ bw ∈ p, (ballotCands bw.1).Nodup) :
+    condorcetSeatlessAt ab Condorcet.condorcetWinner (renRProfile σ p) = (condorcetSeatlessAt ab Condorcet.condorcetWinner p).map σ :=
+  Perm.condorcetWinnerRule_renAt σ hσ ab p hb
+
+open VL.Convert VL.PreConv VL.Perm in
+theorem smith_rule_rename_at (σ : Cand → Cand) (hσ : Function.Injective σ) (ab : Bool) (p : RProfile) (hb : ∀ bw ∈ p, (ballotCands bw.1).Nodup) :
+    (condorcetSeatlessAt ab Condorcet.smithSet (renRProfile σ p)).Perm ((condorcetSeatlessAt ab Condorcet.smithSet p).map σ) :=
+  Perm.smithRule_renAt σ hσ ab p hb
+
+open VL.Convert VL.PreConv VL.Perm in
+theorem schwartz_rule_rename_at (σ : Cand → Cand) (hσ : Function.Injective σ) (ab : Bool) (p : RProfile) (hb : ∀ bw ∈ p, (ballotCands bw.1).Nodup) :
+    (condorcetSeatlessAt ab Condorcet.schwartzSet (renRProfile σ p)).Perm ((condorcetSeatlessAt ab Condorcet.schwartzSet p).map σ) :=
+  Perm.schwartzRule_renAt σ hσ ab p hb
+
+open VL.Convert VL.PreConv VL.Perm in
+theorem kemeny_young_rule_rename_at (σ : Cand → Cand) (hσ : Function.Injective σ) (ab : Bool) (p : RProfile) (hb : ∀ bw ∈ p, (ballotCands bw.1).Nodup) (n : Nat) :
+    condorcetRuleAt ab Condorcet.kemenyYoung (renRProfile σ p) n =
+      (condorcetRuleAt ab Condorcet.kemenyYoung p n).map (fun r => r.map (renSlot σ)) :=
+  Perm.kemenyRule_renAt σ hσ ab p hb n
+
+open VL.Convert VL.PreConv VL.Perm in
+theorem copeland_rule_rename_at (ab : Bool) (σ : Cand → Cand) (hσ : Function.Injective σ) (so : Bool) (p : RProfile)
+    (hb : ∀ bw ∈ p, (ballotCands bw.1).Nodup) (n : Nat) :
+    SlotsEquiv (condorcetRuleAt ab (Condorcet.copeland so) (renRProfile σ p) n)
+      ((condorcetRuleAt ab (Condorcet.copeland so) p n).map (renSlot σ)) :=
+  Perm.copelandRule_ren_soAt ab σ hσ so p hb n
+
+open VL.Convert VL.PreConv VL.Perm in
+theorem copeland_symmetric_candidates_at (ab : Bool) (σ : Cand → Cand) (hσ : Function.Injective σ) (so : Bool) (p : RProfile)
+    (hb : ∀ bw ∈ p, (ballotCands bw.1).Nodup) (hsym : (renRProfile σ p).Perm p) (n : Nat) (c : Cand) :
+    (Elected (σ c) (condorcetRuleAt ab (Condorcet.copeland so) p n) ↔ Elected c (condorcetRuleAt ab (Condorcet.copeland so) p n)) ∧
+    (InTie (σ c) (condorcetRuleAt ab (Condorcet.copeland so) p n) ↔ InTie c (condorcetRuleAt ab (Condorcet.copeland so) p n)) :=
+  Perm.copelandRule_symmetricAt ab σ hσ so p hb hsym n c
+
+open VL.Convert VL.PreConv VL.Perm in
+theorem minimax_symmetric_candidates_at (ab : Bool) (σ : Cand → Cand) (hσ : Function.Injective σ) (sc : Condorcet.Scorer) (p : RProfile)
+    (hb : ∀ bw ∈ p, (ballotCands bw.1).Nodup) (hsym : (renRProfile σ p).Perm p) (n : Nat) (c : Cand) :
+    (Elected (σ c) (condorcetRuleAt ab (Condorcet.minimax sc) p n) ↔ Elected c (condorcetRuleAt ab (Condorcet.minimax sc) p n)) ∧
+    (InTie (σ c) (condorcetRuleAt ab (Condorcet.minimax sc) p n) ↔ InTie c (condorcetRuleAt ab (Condorcet.minimax sc) p n)) :=
+  Perm.minimaxRule_symmetricAt ab σ hσ sc p hb hsym n c
+
+open VL.Convert VL.PreConv VL.Perm in
+theorem schulze_symmetric_candidates_at (ab : Bool) (σ : Cand → Cand) (hσ : Function.Injective σ) (p : RProfile)
+    (hb : ∀ bw ∈ p, (ballotCands bw.1).Nodup) (hw : ∀ bw ∈ p, 0 ≤ bw.2) (hsym : (renRProfile σ p).Perm p) (n : Nat) (c : Cand) :
+    (Elected (σ c) (condorcetRuleAt ab Condorcet.schulze p n) ↔ Elected c (condorcetRuleAt ab Condorcet.schulze p n)) ∧
+    (InTie (σ c) (condorcetRuleAt ab Condorcet.schulze p n) ↔ InTie c (condorcetRuleAt ab Condorcet.schulze p n)) :=
+  Perm.schulzeRule_symmetricAt ab σ hσ p hb hw hsym n c
+
+open VL.Convert VL.PreConv VL.Perm in
+theorem condorcet_winner_symmetric_candidates_at (ab : Bool) (σ : Cand → Cand) (hσ : Function.Injective σ) (p : RProfile)
+    (hb : ∀ bw ∈ p, (ballotCands bw.1).Nodup) (hsym : (renRProfile σ p).Perm p) (c : Cand) :
+    σ c ∈ condorcetSeatlessAt ab Condorcet.condorcetWinner p ↔ c ∈ condorcetSeatlessAt ab Condorcet.condorcetWinner p :=
+  Perm.condorcetWinnerRule_symmetricAt ab σ hσ p hb hsym c
+
+open VL.Convert VL.PreConv VL.Perm in
+theorem smith_symmetric_candidates_at (ab : Bool) (σ : Cand → Cand) (hσ : Function.Injective σ) (p : RProfile)
+    (hb : ∀ bw ∈ p, (ballotCands bw.1).Nodup) (hsym : (renRProfile σ p).Perm p) (c : Cand) :
+    σ c ∈ condorcetSeatlessAt ab Condorcet.smithSet p ↔ c ∈ condorcetSeatlessAt ab Condorcet.smithSet p :=
+  Perm.smithRule_symmetricAt ab σ hσ p hb hsym c
+
+open VL.Convert VL.PreConv VL.Perm in
+theorem schwartz_symmetric_candidates_at (ab : Bool) (σ : Cand → Cand) (hσ : Function.Injective σ) (p : RProfile)
+    (hb : ∀ bw ∈ p, (ballotCands bw.1).Nodup) (hsym : (renRProfile σ p).Perm p) (c : Cand) :
+    σ c ∈ condorcetSeatlessAt ab Condorcet.schwartzSet p ↔ c ∈ condorcetSeatlessAt ab Condorcet.schwartzSet p :=
+  Perm.schwartzRule_symmetricAt ab σ hσ p hb hsym c
 
 /-! ## every over-award policy of QuotaDistributor / LargestRemainder (`subtract` included) -/
 
